@@ -348,6 +348,16 @@ def P9(m, R):
         for md_st in f.mod.tree.body:
             if isinstance(md_st, (ast.Import, ast.ImportFrom)):
                 known |= {(a.asname or a.name).split('.')[0] for a in md_st.names}
+        # nested functions and classes: their names, parameters and locals are names of this function's text as well
+        for n in ast.walk(f.node):
+            if n is not f.node and isinstance(n, (ast.FunctionDef, ast.AsyncFunctionDef, ast.ClassDef)):
+                known.add(n.name)
+            if n is not f.node and isinstance(n, (ast.FunctionDef, ast.AsyncFunctionDef, ast.Lambda)):
+                a_ = n.args
+                known |= {x.arg for x in a_.posonlyargs + a_.args + a_.kwonlyargs} | ({a_.vararg.arg} if a_.vararg else set()) | ({a_.kwarg.arg} if a_.kwarg else set())
+                for y in ast.walk(n):
+                    if isinstance(y, ast.Name) and isinstance(y.ctx, ast.Store):
+                        known.add(y.id)
         for n in f.walk():
             if isinstance(n, ast.Name) and isinstance(n.ctx, ast.Load) and n.id not in known:
                 undefined.append((f, n))
@@ -522,6 +532,9 @@ def _group_start(R, f, loop, value, cur_set, ae, pol=True):
                 return False if False in vs else (None if None in vs else True)
             return True if True in vs else (None if None in vs else False)
         tx = norm(t)
+        if isinstance(t, ast.Call) and call_name(t) == 'any' and 'setup_seq[0]' in tx and st_.get('combo') is not None:
+            # "the token is the first code of some colour function": so in the outcomes CF / MT, not when no function is concerned
+            return True if 'CF' in st_['combo'] else (None if 'MT' in st_['combo'] else False)
         if tx == cur_set:
             return st_['cs'] == 'N'
         if tx == 'len(%s)' % cur_set:
@@ -605,6 +618,19 @@ def _group_start(R, f, loop, value, cur_set, ae, pol=True):
                 s2['combo'] = tag
                 body = [x for a in blocks for x in a]
                 run(body + rest, s2, k)
+            return
+        if isinstance(s0, ast.Assign) and len(s0.targets) == 1 and isinstance(s0.targets[0], ast.Name) and \
+                isinstance(s0.value, (ast.ListComp, ast.GeneratorExp, ast.Call)) and \
+                any(isinstance(x, ast.Call) and call_name(x) == 'seq_starts_with_fn' for x in ast.walk(s0.value)) and \
+                (not isinstance(s0.value, ast.Call) or call_name(s0.value) in ('list', 'tuple', 'next', 'any')):
+            # the colour functions matched by a comprehension: the local holds the matching functions (empty = none matches)
+            for tag in ((), ('MT',), ('CF',)):
+                s2 = clone(st_)
+                s2['consulted'] = True
+                s2['combo'] = tag
+                s2['vars'][s0.targets[0].id] = ('MT' in tag)
+                s2['matchvar'] = s0.targets[0].id
+                run(rest, s2, k)
             return
         if isinstance(s0, ast.Assign) and len(s0.targets) == 1:
             t_, v_ = s0.targets[0], s0.value
